@@ -240,7 +240,7 @@ def key_of(e, note, b=None):
             return "C08:tl.bytes:len_alloc"
         return "C08:tl:%s:%s:%s" % (e.get("ty"), guard, what)
     if kind in ("Decode", "Bag"):
-        return "C08:tlb:%s:%s:%s" % (e.get("type"), re.sub(r"^specgen:", "", cls), what)
+        return "C08:tlb:%s:%s:%s" % (e.get("type"), re.sub(r"^(specgen|mut):", "", cls), what)
     site = re.sub(r"^(liteapi|code|liteclient)\.", "", e.get("site", "?"))
     hc = helper_class(e, b)
     if what == "panic" and hc in ("zero_roots", "ids_shorter_than_transactions"):
@@ -279,7 +279,8 @@ def merged_asts(ck, paths, name):
 
 def run(ck):
     ck.assumptions += ["TLC 1.8.0, CommunityModules Json; Prim converters and Sha256",
-                       "budgets are generous linear bounds (alloc <= 64 x size + 2 MiB, time <= 2 s + size/64 ms); the ADNL frame reader may in addition hold "
+                       "budgets are generous linear bounds (alloc <= 64 x size + 2 MiB, time <= 2 s + size/64 ms of processor time of the calling thread; a call that has not "
+                       "returned after 20 s of wall-clock time is a Timeout); the ADNL frame reader may in addition hold "
                        "one frame of the announced length (<= 8 MiB, the protocol's bound) and a copy of its payload; a breach is reported only if a second run repeats it",
                        "cell inputs are charged for the tree they unfold to (4 bytes per cell + bits/8), measured by a walk bounded at 2^21 cells; every generated input stays below that bound",
                        "value judgement only for types whose reflection schema has no opaque node, inputs of <= 300 cells and (thorough) the first 250 returned values per type; "
@@ -442,12 +443,22 @@ def run(ck):
         # replay numbers its inputs 0..n-1 in file order
         for line, e in enumerate(evs, 1):
             second[e.get("i")] = (e, any(r["line"] == line for r in rejected), (rnotes.get(line) or [""])[0])
+    # in-package helpers: the whole (small) driver is run a second time
+    inpkg_again = None
+    if any(j.part == "inpkg" for items in bykey.values() for (j, e, note, b) in items):
+        j2 = inpkg_job(ck)
+        _, rej2 = validate(ck, j2, empty, schema, name="inpkg_rerun")
+        inpkg_again = {(r["event"].get("site"), r["event"].get("class"), r["event"].get("hex", (j2.begin_of(r["event"].get("i")) or {}).get("hex"))) for r in rej2}
     reported = 0
     for key, items in bykey.items():
         for n, (j, e, note, b) in enumerate(items):
             idx = next((x for x, t in enumerate(rer) if t[2] is e), None)
             again = second.get(idx)
-            if b is not None and j.part != "inpkg":
+            if j.part == "inpkg":
+                if (e.get("site"), e.get("class"), e.get("hex", (b or {}).get("hex"))) not in inpkg_again:
+                    ck.notes.append("%s: not repeated on the second run of the in-package driver - not reported" % key)
+                    continue
+            elif b is not None:
                 if again is None:
                     raise Infra("second run lost input %s of %s" % (e.get("i"), j.name))
                 e2, rej2, note2 = again
